@@ -5,6 +5,7 @@ package iscp
 import (
 	"context"
 	"fmt"
+	"time"
 
 	"github.com/aptpod/iscp-go/transport"
 )
@@ -25,10 +26,26 @@ func VerifWithSentStorage(s VerifSentStorage) ConnOption {
 	return func(c *ConnConfig) { c.sentStorage = s }
 }
 
-// VerifDeterministicIDs makes call ids deterministic ("call-1", "call-2", ...) for replayable runs.
+// the package-level defaults as they are when the process starts. A harness process runs many executions: state
+// that a (broken) library leaves in package-level variables must not leak from one execution into the next, or
+// replays diverge. VerifDeterministicIDs restores it at the start of every execution.
+var verifPristine = struct {
+	flushInterval, closeTimeout, ackInterval, expiryInterval time.Duration
+	flushBufferSize                                        int
+	up                                                     UpstreamConfig
+	down                                                   DownstreamConfig
+	ackFlush                                               time.Duration
+}{defaultFlushInterval, defaultCloseTimeout, defaultAckInterval, defaultExpiryInterval, defaultFlushBufferSize, defaultUpstreamConfig, defaultDownstreamConfig, defaultAckFlushInterval}
+
+// VerifDeterministicIDs makes call ids deterministic ("call-1", "call-2", ...) for replayable runs and restores the
+// package-level defaults.
 func VerifDeterministicIDs() {
 	n := 0
 	randomString = func() string { n++; return fmt.Sprintf("call-%d", n) }
+	defaultFlushInterval, defaultCloseTimeout, defaultAckInterval, defaultExpiryInterval = verifPristine.flushInterval, verifPristine.closeTimeout, verifPristine.ackInterval, verifPristine.expiryInterval
+	defaultFlushBufferSize = verifPristine.flushBufferSize
+	defaultUpstreamConfig, defaultDownstreamConfig = verifPristine.up, verifPristine.down
+	defaultAckFlushInterval = verifPristine.ackFlush
 }
 
 // VerifConnStatus exposes the connection status primitive (connStatus) for the C05 lemma harness.
